@@ -70,6 +70,18 @@ func (c *chanList) remove(id uint32) {
 	c.Unlock()
 }
 
+// removeChannel removes ch from the list if it is still stored under its
+// local ID. Unlike remove it is safe to call for a channel that was already
+// removed: the slot may have been reused by another channel in the meantime.
+func (c *chanList) removeChannel(ch *channel) {
+	id := ch.localId - c.offset
+	c.Lock()
+	if id < uint32(len(c.chans)) && c.chans[id] == ch {
+		c.chans[id] = nil
+	}
+	c.Unlock()
+}
+
 // dropAll forgets all channels it knows, returning them in a slice.
 func (c *chanList) dropAll() []*channel {
 	c.Lock()
